@@ -295,6 +295,9 @@ func checkC04(c *Ctx) {
 	rulePaddingNonInterference(c, "C04-R5", decoderFuncs(P, "msm"))
 	// ---- R6
 	checkMSMRejections(c, "C04-R6", A, hl, or)
+	// ---- R8 the decoders keep no storage between messages (scratch slices, caches): every decode owns its cells
+	ruleGlobalsInitOnly(c, "C04-R8", []string{"rtcm/header", "rtcm/utils", "rtcm/type_msm4/satellite", "rtcm/type_msm4/signal", "rtcm/type_msm4/message", "rtcm/type_msm7/satellite", "rtcm/type_msm7/signal", "rtcm/type_msm7/message"})
+	c.MinInstances("C04-R8", 1)
 	// ---- R7
 	if cor, err := loadClassOracle(c.Verifdir); err == nil {
 		T := NewTables(P)
